@@ -421,3 +421,125 @@ Definition probe (F : facts) (E : env) (t : text) (s : tok) : result * option ob
 (* the invariant every operation keeps: no pending edits in any buffer, no pending path ids *)
 Definition inv_tok (s : tok) : Prop := replaces (input s) = [] /\ top_path_ids s = [].
 Definition inv_sys (y : sys) : Prop := inv_tok (tk y) /\ Forall (fun l => replaces (l_input l) = []) (lists y).
+
+(* ---------- correspondence run: the environment read off a table recorded from fresh tokenizers ---------- *)
+(* one row per distinct analysed text: what a fresh tokenizer reports for it *)
+Record trow := mkRow {
+  r_text : text;                          (* original text *)
+  r_norm : option (text * list N);        (* None: the input text plugin makes no edit; Some (modified, m2o) *)
+  r_disc : bool;                          (* lattice cannot be connected (EosBosDisconnect) *)
+  r_late : bool;                          (* the path rewrite plugin of the harness fails on this text *)
+  r_pc : list rnode;                      (* path in mode C *)
+  r_pa : option (list rnode); r_pb : option (list rnode)   (* paths in modes A / B; None = panic *)
+}.
+
+Definition text_eqb : text -> text -> bool := list_eqb N.eqb.
+Fixpoint tfind (tbl : list trow) (t : text) : option trow :=
+  match tbl with [] => None | r :: rest => if text_eqb (r_text r) t then Some r else tfind rest t end.
+
+Definition len_is {A} (l : list A) (n : N) : bool := N.of_nat (List.length l) =? n.
+
+Definition exp_modified (r : trow) : text := match r_norm r with Some (md, _) => md | None => r_text r end.
+Definition exp_m2o (r : trow) : list N := match r_norm r with Some (_, m) => m | None => seqN (Model.Split.blen (r_text r) + 1) end.
+
+(* the fields the analysis reads are those a fresh buffer holds for this text (stale prefixes change the lengths) *)
+Definition coherent (r : trow) (v : view) (rows : rows3) : bool :=
+  let '(orig, md, mo, mo2, chars, c2b, b2c, bow, cat, cont) := v in
+  let n := N.of_nat (List.length md) in
+  let bl := Model.Split.blen md in
+  text_eqb md (exp_modified r) && list_eqb N.eqb mo (exp_m2o r) && text_eqb chars md &&
+  len_is c2b (n + 1) && len_is b2c (bl + 1) && len_is bow bl && len_is cat n && len_is cont n &&
+  len_is mo2 (Model.Split.blen orig + 1) &&
+  let '(a, b, c) := rows in
+  list_eqb (list_eqb N.eqb) a ([BOS] :: repeat [] (N.to_nat n)) &&
+  list_eqb (list_eqb N.eqb) b (repeat [] (S (N.to_nat n))) && list_eqb (list_eqb N.eqb) c (repeat [] (S (N.to_nat n))).
+
+Definition POISON : rnode := Model.Split.mkNode 999999 999999 999999 999999 999999.
+
+Definition v_orig (v : view) : text := let '(orig, _, _, _, _, _, _, _, _, _) := v in orig.
+
+Definition env_of (tbl : list trow) : env :=
+  mkEnv
+    [mkPlugin true (fun md _ chars =>
+       if text_eqb chars md then
+         match tfind tbl md with
+         | Some r => match r_norm r with Some _ => Some [(0, Model.Split.blen md, [])] | None => Some [] end
+         | None => None
+         end
+       else None)]
+    (fun md _ _ => match tfind tbl md with
+                   | Some r => match r_norm r with Some (tgt, tmap) => (tgt, tmap, Model.Split.blen tgt) | None => ([], [], 0) end
+                   | None => ([], [], 0)
+                   end)
+    (fun _ => 0)
+    (fun cs => map (fun k => Model.Split.c2b cs (N.of_nat k)) (seq 0 (List.length cs)))
+    (fun cs => removelast (Model.Split.b2c_from 0 cs))
+    (fun cs => N.max 1 (N.of_nat (List.length cs)))
+    (fun _ old => old) (fun _ old => old) (fun _ old => old)
+    (fun v _ rows =>
+       match tfind tbl (v_orig v) with
+       | Some r => if coherent r v rows
+                   then mkCO rows None [] (if r_disc r then None else Some (rev (seqN (N.of_nat (List.length (r_pc r))))))
+                   else mkCO rows None [] (Some [999999])
+       | None => mkCO rows None [] (Some [999999])
+       end)
+    (fun v _ _ id => match tfind tbl (v_orig v) with
+                     | Some r => nth (N.to_nat id) (r_pc r) POISON
+                     | None => POISON
+                     end)
+    (fun v _ _ path => match tfind tbl (v_orig v) with
+                       | Some r => if r_late r then None else Some path
+                       | None => Some path
+                       end)
+    (fun m _ v path => match m with
+                       | MC => Some path
+                       | _ => match tfind tbl (v_orig v) with
+                              | Some r => if list_eqb Model.Split.node_eqb path (r_pc r)
+                                          then (match m with MA => r_pa r | _ => r_pb r end)
+                                          else Some (POISON :: path)
+                              | None => Some (POISON :: path)
+                              end
+                       end)
+    (fun _ _ _ _ => Some None)
+    (fun _ _ _ => [])
+    (fun x => x) 64 128.
+
+(* events of a run: (kind, flag, nodes): kind 0 = analyse (flag 0 Ok / 1 Err / 2 Panic), kind 1 = collect (flag 0 / 2,
+   nodes of the list afterwards as (char begin, char end, word id)) *)
+Definition event := (N * N * list (N * N * N))%type.
+Definition nodes3 (p : list rnode) : list (N * N * N) :=
+  map (fun n => (Model.Split.nb n, Model.Split.ne n, Model.Split.wid n)) p.
+Definition flag_of (r : result) : N := match r with ROk => 0 | RErr => 1 | RPanic => 2 end.
+
+Definition events_of (F : facts) (E : env) (o : op) (y : sys) : list event :=
+  match o with
+  | OAnalyse t => [(0, flag_of (fst (analyse F E t (tk y))), [])]
+  | OCollect k => match nth_error (lists y) k with
+                  | Some l => match collect (tk y) l with
+                              | Some (_, l') => [(1, 0, nodes3 (l_nodes l'))]
+                              | None => [(1, 2, [])]
+                              end
+                  | None => []
+                  end
+  | _ => []
+  end.
+
+Fixpoint run_trace (F : facts) (E : env) (ops : list op) (y : sys) : list event :=
+  match ops with
+  | [] => []
+  | o :: r => events_of F E o y ++ run_trace F E r (run_op F E o y)
+  end.
+
+Definition n3_eqb (a b : N * N * N) : bool :=
+  let '(x, y, z) := a in let '(x', y', z') := b in (x =? x') && (y =? y') && (z =? z').
+Definition event_eqb (a b : event) : bool :=
+  let '(k, f, l) := a in let '(k', f', l') := b in (k =? k') && (f =? f') && list_eqb n3_eqb l l'.
+
+(* One case: table, initial mode, operations (the last two are the probe: analyse t, collect), the implementation's
+   events for the same operations, and the events of the probe on a freshly created tokenizer (mode and field request
+   of the history tokenizer).  true iff the model reproduces the implementation's events and the implementation's
+   probe events equal the fresh ones. *)
+Definition last_two {A} (l : list A) : list A := skipn (List.length l - 2) l.
+Definition check_case (tbl : list trow) (m0 : tmode) (ops : list op) (impl : list event) (fresh_probe : list event) : bool :=
+  list_eqb event_eqb (run_trace F0 (env_of tbl) ops (mkSys (create m0) [])) impl &&
+  list_eqb event_eqb (last_two impl) fresh_probe.
